@@ -166,6 +166,7 @@ def make_jobs(tier, seed):
         jobs.append(('mut', seed * 1000003 + 100 + i, 170 if q else 250))
         jobs.append(('soup', seed * 1000003 + 200 + i, 50 if q else 70))
         jobs.append(('bytes', seed * 1000003 + 300 + i, 30 if q else 40))
+        jobs.append(('planted', seed * 1000003 + 500 + i, 60 if q else 90))
     for i in range(12 if q else 64):
         jobs.append(('probe', seed * 1000003 + 400 + i, 4000 if q else 12000))
     return jobs
@@ -219,6 +220,15 @@ def run_job(job, acc):
                     data = data.encode()
                 exercise(acc, wd, data, 'mutation', r, with_chk=(i % 6 == 0),
                          origin='mutation seed=%d #%d' % (job[1], i))
+        elif kind == 'planted':
+            from . import c08
+            for i in range(job[2]):
+                base = c08.base_grammar(r)
+                sh = r.choice(common.SHELLS)
+                pk, stmts, _ = c08.plant(r, base, sh)
+                text, _, _ = gast.print_grammar(stmts, layout=r if r.random() < 0.5 else None)
+                exercise(acc, wd, text.encode(), 'planted-' + pk, r, shells=[sh], with_chk=(i % 4 == 0),
+                         origin='planted seed=%d #%d' % (job[1], i))
         elif kind == 'soup':
             for i in range(job[2]):
                 exercise(acc, wd, hostile.token_soup(r), 'token-soup', r, with_chk=(i % 6 == 0),
